@@ -147,6 +147,7 @@ pub fn eval_cc(t: &mut Tables, w: &[&str]) -> Option<Obs> {
         ["new", id] => { set_at(&mut t.cc, id.parse().ok()?, ControlChange14BitMessageScanner::new()); Some(ok_obs()) }
         ["default", id] => { set_at(&mut t.cc, id.parse().ok()?, ControlChange14BitMessageScanner::default()); Some(ok_obs()) }
         ["copy", a, b] => { let x = (*t.cc.get(a.parse::<usize>().ok()?)?)?; set_at(&mut t.cc, b.parse().ok()?, x); Some(ok_obs()) }
+        ["clone", a, b] => { let x = (*t.cc.get(a.parse::<usize>().ok()?)?)?; let y = Clone::clone(&x); set_at(&mut t.cc, b.parse().ok()?, y); Some(ok_obs()) }
         ["reset", id] => { t.cc.get_mut(id.parse::<usize>().ok()?)?.as_mut()?.reset(); Some(ok_obs()) }
         ["feed", id, which, s, d1, d2] => {
             let (s, d1, d2): (u8, u8, u8) = (s.parse().ok()?, d1.parse().ok()?, d2.parse().ok()?);
@@ -177,6 +178,7 @@ pub fn eval_pn(t: &mut Tables, w: &[&str]) -> Option<Obs> {
         ["new", id] => { set_at(&mut t.pn, id.parse().ok()?, ParameterNumberMessageScanner::new()); Some(ok_obs()) }
         ["default", id] => { set_at(&mut t.pn, id.parse().ok()?, ParameterNumberMessageScanner::default()); Some(ok_obs()) }
         ["copy", a, b] => { let x = (*t.pn.get(a.parse::<usize>().ok()?)?)?; set_at(&mut t.pn, b.parse().ok()?, x); Some(ok_obs()) }
+        ["clone", a, b] => { let x = (*t.pn.get(a.parse::<usize>().ok()?)?)?; let y = Clone::clone(&x); set_at(&mut t.pn, b.parse().ok()?, y); Some(ok_obs()) }
         ["reset", id] => { t.pn.get_mut(id.parse::<usize>().ok()?)?.as_mut()?.reset(); Some(ok_obs()) }
         ["feed", id, which, s, d1, d2] => {
             let (s, d1, d2): (u8, u8, u8) = (s.parse().ok()?, d1.parse().ok()?, d2.parse().ok()?);
@@ -325,7 +327,8 @@ pub fn random_histories(out: &mut Out, kind: &str, seed: u64, histories: usize, 
                 out.req(&format!("{} reset 1", kind));
                 out.req(&format!("{} {} 1", kind, if strict_reset { "mustbenew" } else { "isnew" }));
             } else if r < 5 {
-                out.req(&format!("{} copy 1 2", kind));
+                out.req(&format!("{} {} 1 2", kind, if rng.below(2) == 0 { "copy" } else { "clone" }));
+                out.req(&format!("{} same 2 1", kind));
                 copied = true;
             } else if r < 9 && copied {
                 // the copy evolves on its own
